@@ -12,8 +12,8 @@ import random
 ID = "C66"
 LEVEL = "exploration"
 TIERS = {
-    "quick": {"runs": 6000, "wall": 80, "chunk": 50, "shrink_s": 40, "run_cap_s": 60},
-    "thorough": {"runs": 1_500_000, "wall": 840, "chunk": 100, "shrink_s": 120, "run_cap_s": 60},
+    "quick": {"runs": 6000, "wall": 80, "chunk": 50, "shrink_s": 40, "run_cap_s": 120},
+    "thorough": {"runs": 1_500_000, "wall": 840, "chunk": 100, "shrink_s": 120, "run_cap_s": 120},
 }
 RULE = (
     "one run = 2-4 real threads (plus threads spawned from inside contexts), each executing a generated "
